@@ -112,10 +112,14 @@ def check_inform(ctx, R):
         for l in own_nodes(fn.node):
             if isinstance(l, ast.For) and self_field(l.iter) in ('upstreams', 'downstreams'):
                 var = l.target.id if isinstance(l.target, ast.Name) else None
-                if any(isinstance(c, ast.Call) and isinstance(c.func, ast.Attribute) and c.func.attr == '_inform_' + X
-                       and isinstance(c.func.value, ast.Name) and c.func.value.id == var and c.args
-                       and isinstance(c.args[0], ast.Name) and c.args[0].id == param for c in ast.walk(l)):
-                    dirs.add(self_field(l.iter))
+                for c in ast.walk(l):
+                    if isinstance(c, ast.Call) and isinstance(c.func, ast.Attribute) and c.func.attr == '_inform_' + X \
+                            and isinstance(c.func.value, ast.Name) and c.func.value.id == var and c.args \
+                            and isinstance(c.args[0], ast.Name) and c.args[0].id == param:
+                        # the call may only be conditional on the neighbour existing (weak references)
+                        guards = [g for g in ast.walk(l) if isinstance(g, ast.If) and any(x is c for b in g.body for x in ast.walk(b))]
+                        if all(src(g.test).replace(' ', '') in (var, var + 'isnotNone') for g in guards):
+                            dirs.add(self_field(l.iter))
         R.ob('CONFLICT-RAISES', con, 'bind-and-percolate', bool(assigns) and dirs == {'upstreams', 'downstreams'},
              '_inform_%s does not bind the value and percolate it to both upstreams and downstreams (found %s)' % (X, sorted(dirs)),
              ctx.where(fn, fn.node.lineno))
@@ -349,8 +353,17 @@ def check_thread_site(ctx, R):
             else:
                 okc = False
                 break
-    R.ob('THREAD-SITE', con, 'asynchronous-gets-current', okc,
-         'get_io_loop(True) does not return IOLoop.current()', ctx.where(gil, gil.node.lineno))
+    # ... and that test comes first: nothing (e.g. the dask default-client lookup) may hand an asynchronous caller
+    # another loop before it
+    first_ok = True
+    pname = gil.params()[0] if gil.params() else 'asynchronous'
+    for st, status in ctx.paths(gil, None):
+        evs = [e for e in st.events if e.kind in ('COND', 'CALL', 'RETURN')]
+        if not evs or not (evs[0].kind == 'COND' and evs[0].a == pname):
+            first_ok = False
+    R.ob('THREAD-SITE', con, 'asynchronous-gets-current', okc and first_ok,
+         'get_io_loop(True) does not return IOLoop.current() on every path (the test of `%s` must come first)' % pname,
+         ctx.where(gil, gil.node.lineno))
 
 
 FOREIGN_LOOP = {'IOLoop.current', 'IOLoop.instance', 'asyncio.get_event_loop', 'asyncio.get_running_loop', 'asyncio.ensure_future',
@@ -375,6 +388,20 @@ def check_schedule_on_self_loop(ctx, R):
     R.ob('SCHEDULE-ON-SELF-LOOP', 'streamz', 'node-classes', not bad,
          'a node class reaches for a loop other than self.loop: %s' % ', '.join('%s (%s:%d)' % (src(x.func), f.qual, x.lineno) for f, x in bad),
          ctx.where(bad[0][0], bad[0][1].lineno) if bad else None, None, n)
+    bad_rc, nrc = [], 0
+    for fn in M.all_funcs():
+        if fn.cls is None or fn.cls not in M.nodes and not any(c in M.nodes for c in ([fn.cls] if fn.cls else [])):
+            continue
+        for x in own_nodes(fn.node):
+            if isinstance(x, ast.Call) and src(x.func) in ('RefCounter', 'core.RefCounter'):
+                nrc += 1
+                lp = next((k.value for k in x.keywords if k.arg == 'loop'), None)
+                if lp is None or src(lp) != 'self.loop':
+                    bad_rc.append((fn, x))
+    R.ob('SCHEDULE-ON-SELF-LOOP', 'streamz', 'refcounter-loop', not bad_rc,
+         'a node creates a RefCounter without loop=self.loop: its completion callback is scheduled on the shared '
+         'background-thread loop (%s)' % ', '.join('%s:%d' % (f.qual, x.lineno) for f, x in bad_rc),
+         ctx.where(bad_rc[0][0], bad_rc[0][1].lineno) if bad_rc else None, None, nrc)
     rc = M.cls('streamz.core', 'RefCounter')
     init = rc.methods.get('__init__')
     if init is not None and any(isinstance(x, ast.Call) and src(x.func) == 'get_io_loop' for x in own_nodes(init.node)):
